@@ -211,6 +211,67 @@ fn corruptions(thorough: bool) -> Vec<Vec<u8>> {
     out
 }
 
+/// Amplifiers: compound headers that claim the largest count the decoder admits (and sizes to match, or none) with
+/// little or no body behind them - alone, nested as the first element / first key of one another k levels deep, and
+/// as siblings inside one list.  What is judged on them is memory: the peak of live heap while decoding must stay
+/// in proportion to the input length.
+fn amplifiers(thorough: bool) -> Vec<Vec<u8>> {
+    let mut heads: Vec<(Vec<u8>, bool)> = vec![]; // (header bytes, is a map: nested value goes in key position)
+    let counts: &[u32] = if thorough { &[65536, 65535, 32768, 4096] } else { &[65536, 4096] };
+    for &c in counts {
+        for size in [4u32, c, c.saturating_mul(4), c.saturating_mul(9).saturating_add(16)] {
+            for code in [0xd0u8, 0xd1] {
+                let mut h = vec![code];
+                h.extend(size.to_be_bytes());
+                h.extend(c.to_be_bytes());
+                heads.push((h, code == 0xd1));
+            }
+            for ctor in [0x40u8, 0x41, 0x43, 0x44, 0x45, 0x50, 0x70, 0xa0, 0xc0] {
+                let mut h = vec![0xf0];
+                h.extend(size.to_be_bytes());
+                h.extend(c.to_be_bytes());
+                h.push(ctor);
+                heads.push((h, false));
+            }
+        }
+    }
+    for (code, is_map) in [(0xc0u8, false), (0xc1, true)] {
+        heads.push((vec![code, 0xff, 0xff], is_map));
+        heads.push((vec![code, 0xff, 0xfe], is_map));
+    }
+    for ctor in [0x40u8, 0x45, 0x50] {
+        heads.push((vec![0xe0, 0xff, 0xff, ctor], false));
+    }
+    let mut out = vec![];
+    let levels: &[usize] = if thorough { &[1, 2, 3, 4, 8, 12, 16, 20, 24, 32] } else { &[1, 2, 8, 20] };
+    for (h, _is_map) in &heads {
+        for &k in levels {
+            for leaf in [&[][..], &[0x40][..], &[0x40, 0x40][..]] {
+                let mut v = vec![];
+                for _ in 0..k {
+                    v.extend(h);
+                }
+                v.extend(leaf);
+                out.push(v);
+            }
+        }
+        // siblings: a list32 of n copies of (header + null)
+        for n in [2usize, 45] {
+            let mut body = vec![];
+            for _ in 0..n {
+                body.extend(h);
+                body.push(0x40);
+            }
+            let mut v = vec![0xd0];
+            v.extend(((body.len() + 4) as u32).to_be_bytes());
+            v.extend((n as u32).to_be_bytes());
+            v.extend(body);
+            out.push(v);
+        }
+    }
+    out
+}
+
 /// nesting bombs up to the 64 KiB a frame can typically carry
 fn bombs(thorough: bool) -> Vec<Vec<u8>> {
     let mut out = vec![];
@@ -359,6 +420,10 @@ pub fn families(thorough: bool) -> Vec<Family> {
             name: "valid-corpus",
             count: valid_corpus(thorough).len() as u64,
         },
+        Family {
+            name: "amplifiers",
+            count: amplifiers(thorough).len() as u64,
+        },
     ]
 }
 
@@ -374,6 +439,7 @@ impl Gen {
             "corruptions" => corruptions(thorough),
             "bombs" => bombs(thorough),
             "valid-corpus" => valid_corpus(thorough),
+            "amplifiers" => amplifiers(thorough),
             _ => vec![],
         };
         Gen {
@@ -424,18 +490,42 @@ pub fn judge(input: &[u8]) -> Vec<(String, String)> {
     // legitimately materialises up to 4.7 MB from a 10-byte encoding
     let limit = 128 * input.len() + (8 << 20);
     let first = code_name(input.first());
+    // memory in proportion to the input: the total of live heap, not only the largest single request.  64 KiB per
+    // input byte is three orders of magnitude above what a value tree needs (72 bytes per 1-byte element).
+    let peak_limit = (8 << 20) + 65536 * input.len();
+    // class of an amplification: arrays whose element constructor is zero-width materialise `count` values from no
+    // bytes at all (the decoder caps the count at 65 536 per array); everything else is named by the first code
+    let amp_class = {
+        const ZW: [u8; 6] = [0x40, 0x41, 0x42, 0x43, 0x44, 0x45];
+        let zw = (0..input.len()).any(|p| (input[p] == 0xf0 && input.get(p + 9).is_some_and(|c| ZW.contains(c))) || (input[p] == 0xe0 && input.get(p + 3).is_some_and(|c| ZW.contains(c))));
+        if zw { "array-of-zero-width-elements".to_string() } else { format!("first={first}") }
+    };
     macro_rules! target {
         ($name:expr, $body:expr) => {{
             alloc_track::start();
             let r = catch(|| $body);
-            let (maxreq, _peak) = alloc_track::stop();
+            let (maxreq, peak) = alloc_track::stop();
+            // (the re-encoding step is the harness's own doing: its memory is not the decoder's)
+            if peak > peak_limit && $name != "reencode" {
+                out.push((
+                    format!("amplified-alloc {} {}", amp_class, $name),
+                    format!(
+                        "decoding the {}-byte input {} as {} has {} bytes of heap live at its peak (bound: 8 MiB + 64 KiB per input byte = {})",
+                        input.len(),
+                        hex(input),
+                        $name,
+                        peak,
+                        peak_limit
+                    ),
+                ));
+            }
             if let Err(p) = &r {
                 out.push((
                     format!("panic {} {}", $name, panic_msg_class(p)),
                     format!("decoding {} as {} panics: {p}", hex(input), $name),
                 ));
             }
-            if maxreq > limit {
+            if maxreq > limit && $name != "reencode" {
                 out.push((
                     format!("huge-alloc {} first={first}", $name),
                     format!(
@@ -624,6 +714,7 @@ pub fn run(ctx: &Ctx) -> Outcome {
     for f in &fams {
         let per = match f.name {
             "bombs" => 4,
+            "amplifiers" => 24,
             "corruptions" => 4000,
             "valid-corpus" => 1000,
             _ => 50_000,
